@@ -873,6 +873,15 @@ class Interp:
         return pats
 
     def _mk_forall(self, cs, cond, body):
+        if z3.is_true(z3.simplify(cond)) and z3.is_quantifier(body) and body.is_forall():
+            # forall x. True => (forall y. phi)  ==  forall x y. phi : one quantifier, so that a trigger mentioning
+            # both x and y can be chosen (z3 does not pull nested quantifiers by default)
+            n = body.num_vars()
+            vs = [z3.Const(body.var_name(k), body.var_sort(k)) for k in range(n)]
+            inner = z3.substitute_vars(body.body(), *reversed(vs))
+            if z3.is_implies(inner):
+                return self._mk_forall(list(cs) + vs, inner.arg(0), inner.arg(1))
+            return self._mk_forall(list(cs) + vs, z3.BoolVal(True), inner)
         pats = None
         if not self.ver.no_patterns:
             try:
